@@ -21,12 +21,12 @@ Section Ops.
     end.
 
   (* the pass as a relation: exactly the method-form operator calls are rewritten, to
-     [op(v', args'…)] with no keywords; every other node (all node classes, [Other] included) is
+     [op(v', args'…, keywords')] ; every other node (all node classes, [Other] included) is
      rebuilt unchanged around its related children *)
   Inductive ext_spec : expr -> expr -> Prop :=
-   | ES_rewrite v v' m args args' kwn kwv :
-       is_op m = true -> ext_spec v v' -> Forall2 ext_spec args args' ->
-       ext_spec (Call (Attr v m) args kwn kwv) (Call (Name m) (v' :: args') [] [])
+   | ES_rewrite v v' m args args' kwn kwv kwv' :
+       is_op m = true -> ext_spec v v' -> Forall2 ext_spec args args' -> Forall2 ext_spec kwv kwv' ->
+       ext_spec (Call (Attr v m) args kwn kwv) (Call (Name m) (v' :: args') kwn kwv')
    | ES_cong e cs' :
        is_meth_op e = false -> Forall2 ext_spec (children e) cs' ->
        ext_spec e (rebuild e cs').
@@ -38,7 +38,7 @@ Section Ops.
 
   Definition post (n : expr) : expr :=
     match n with
-    | Call (Attr v m) args _ _ => if is_op m then function_call m (v :: args) else n
+    | Call (Attr v m) args kwn kwv => if is_op m then Call (Name m) (v :: args) kwn kwv else n
     | _ => n
     end.
 
@@ -59,7 +59,7 @@ Section Ops.
 
   Lemma ext_rewrite v m args kwn kwv :
     is_op m = true ->
-    ext (Call (Attr v m) args kwn kwv) = Call (Name m) (ext v :: map ext args) [] [].
+    ext (Call (Attr v m) args kwn kwv) = Call (Name m) (ext v :: map ext args) kwn (map ext kwv).
   Proof. intros H. cbn [ext_with map_children_t]. rewrite H. reflexivity. Qed.
 
   Lemma ext_generic e : is_meth_op e = false -> ext e = map_children_t ext e.
@@ -86,8 +86,10 @@ Section Ops.
   Proof.
     induction e as [e IH] using expr_size_ind.
     destruct (is_meth_op_cases e) as [(v & m & args & kwn & kwv & -> & Hm) | Hn].
-    - rewrite ext_rewrite by assumption. constructor; [assumption | |].
+    - rewrite ext_rewrite by assumption. apply ES_rewrite; [assumption | | |].
       + apply IH. rewrite size_call, size_attr. lia.
+      + apply Forall_Forall2_map. apply Forall_forall. intros a Ha. apply IH.
+        rewrite size_call. apply sizes_in in Ha. lia.
       + apply Forall_Forall2_map. apply Forall_forall. intros a Ha. apply IH.
         rewrite size_call. apply sizes_in in Ha. lia.
     - rewrite ext_generic by assumption. rewrite map_children_t_rebuild.
@@ -105,8 +107,10 @@ Section Ops.
   Theorem ext_spec_fun : forall e e', ext_spec e e' -> ext e = e'.
   Proof.
     induction e as [e IH] using expr_size_ind. intros e' Hs. inversion Hs; subst.
-    - rewrite ext_rewrite by assumption. f_equal. f_equal.
+    - rewrite ext_rewrite by assumption. f_equal; [f_equal|].
       + apply IH; [|assumption]. rewrite size_call, size_attr. lia.
+      + eapply Forall2_map_eq; [|eassumption]. apply Forall_forall. intros a Ha y Hy.
+        apply IH; [|assumption]. rewrite size_call. apply sizes_in in Ha. lia.
       + eapply Forall2_map_eq; [|eassumption]. apply Forall_forall. intros a Ha y Hy.
         apply IH; [|assumption]. rewrite size_call. apply sizes_in in Ha. lia.
     - rewrite ext_generic by assumption. rewrite map_children_t_rebuild. f_equal.
@@ -132,11 +136,14 @@ Section Ops.
     induction e as [e IH] using expr_size_ind.
     destruct (is_meth_op_cases e) as [(v & m & args & kwn & kwv & -> & Hm) | Hn].
     - rewrite ext_rewrite by assumption. constructor; [reflexivity|].
-      cbn [children]. rewrite app_nil_r.
+      cbn [children].
       constructor; [constructor; [reflexivity | constructor]|].
-      constructor; [apply IH; rewrite size_call, size_attr; lia|].
-      apply Forall_forall. intros a' Ha'. apply in_map_iff in Ha'. destruct Ha' as [a [<- Ha]].
-      apply IH. rewrite size_call. apply sizes_in in Ha. lia.
+      apply Forall_app. split.
+      + constructor; [apply IH; rewrite size_call, size_attr; lia|].
+        apply Forall_forall. intros a' Ha'. apply in_map_iff in Ha'. destruct Ha' as [a [<- Ha]].
+        apply IH. rewrite size_call. apply sizes_in in Ha. lia.
+      + apply Forall_forall. intros a' Ha'. apply in_map_iff in Ha'. destruct Ha' as [a [<- Ha]].
+        apply IH. rewrite size_call. apply sizes_in in Ha. lia.
     - rewrite ext_generic by assumption. constructor.
       + apply is_meth_op_map_children_t; assumption.
       + rewrite children_map_children_t. apply Forall_forall. intros c' Hc'.
